@@ -147,4 +147,11 @@ def obligations(tier):
                       'vbs_bytes_to_list on truncated data (no options for plain VBS, blocked=True for 1014): two records, every cut offset', _funcs))
     if not q:
         obs.append(Ob('cut3/vbs/unblocked', truncated('vbs', False, [6000, 6000, 6000]), 600, 'three records 1..6000, every cut offset', _funcs))
+    from . import c05
+    obs.append(Ob('cut-anywhere/unblocker/read-without-size', c05.readall(3062, 4), 120,
+                  'the unblocker under the blocked readers on a file of any length 0..3062 (a blocked file cut at any byte), from any reachable state '
+                  '(some sized reads done): read() returns everything that remains of the payload (the C05 obligation)', _funcs))
+    from . import c03
+    obs.append(Ob('uncut/configured-max-raised/unblocked', c03.configured_max(8000, False), 300,
+                  'MAX_VBS_RECORD_LENGTH raised to 8000 at run time, a complete file (cut at its end) with one record of every length 1..8000: the record is yielded', _funcs))
     return obs
